@@ -748,6 +748,9 @@ static void copy_struct_mem(void) {
     println("  mov %d(%%rax), %%dl", i);
     println("  mov %%dl, %d(%%rdi)", i);
   }
+
+  // The psABI wants the address of the returned object in RAX.
+  println("  mov %%rdi, %%rax");
 }
 
 static void builtin_alloca(void) {
